@@ -22,8 +22,14 @@ theorem leVal_leBytes (n : Nat) : ∀ v, v < 256 ^ n → leVal (leBytes n v) = v
     simp only [leBytes, leVal, ih _ h2, UInt8.toNat_ofNat']
     omega
 
+theorem takeGo_append (xs : Bytes) : ∀ (rest acc : Bytes),
+    takeGo xs.length (xs ++ rest) acc = some (acc.reverse ++ xs, rest) := by
+  induction xs with
+  | nil => intro rest acc; simp [takeGo]
+  | cons x xs ih => intro rest acc; simp [takeGo, ih]
+
 theorem takeN_append (xs rest : Bytes) : takeN xs.length (xs ++ rest) = some (xs, rest) := by
-  simp [takeN]
+  simp [takeN, takeGo_append]
 
 theorem takeN_leBytes (n v : Nat) (rest : Bytes) : takeN n (leBytes n v ++ rest) = some (leBytes n v, rest) := by
   have := takeN_append (leBytes n v) rest
